@@ -20,7 +20,9 @@ STD_TRAIT_PREFIX = ("core::", "std::", "alloc::", "miette::", "thiserror::", "cl
 ITER_PASS = {"iter", "iter_mut", "into_iter", "next", "next_back", "unwrap", "expect", "unwrap_or_clone", "as_ref", "as_mut", "borrow", "borrow_mut",
              "pop", "pop_front", "pop_back", "remove", "swap_remove", "split_off", "drain", "take", "rev", "enumerate", "zip", "skip", "peekable",
              "first", "last", "get", "get_mut", "split_first", "split_last", "as_slice", "cloned", "copied", "to_vec", "to_owned", "as_deref",
-             "unwrap_or_default", "ok", "values", "keys", "branch", "into_inner", "try_unwrap", "index", "index_mut", "chain", "by_ref"}
+             "unwrap_or_default", "ok", "values", "keys", "branch", "into_inner", "try_unwrap", "index", "index_mut", "chain", "by_ref",
+             "find", "filter", "nth", "skip_while", "take_while", "rfind", "min_by_key", "max_by_key", "step_by", "ok_or", "ok_or_else", "unwrap_or",
+             "unwrap_or_else", "into_values", "into_keys", "first_mut", "last_mut", "into_boxed_slice", "into_vec", "collect", "from_iter"}
 
 
 def _tree_carrying(fx):
@@ -126,7 +128,95 @@ def rule_descent(ctx):
             names = list(tc) + [p_.split("::", 1)[1] for p_ in by_crate.get(crate, ()) if "::" in p_]
             carry_memo[k] = bool(PARAM_RE.search(ty)) or any(re.search(r"(^|[^A-Za-z0-9_:])" + re.escape(n) + r"($|[^A-Za-z0-9_])", ty) for n in names)
         return carry_memo[k]
-    _, rows = audit.load("recursion")
+    tab, rows = audit.load("recursion")
+    # size-preserving renamings: trait methods that replace variables by variables.  Their signature is re-checked here: no
+    # parameter besides the receiver may carry a syntax tree, so nothing but names can be substituted.
+    renamings = set()
+    for r in tab.get("renaming", []):
+        impls = [f2 for f2 in fx.fns.values() if f2.get("impl_trait") == r["trait"] and f2["key"].endswith("::" + r["method"])]
+        if not impls:
+            raise AnalysisError("R-DESCENT: audit/recursion.toml names the renaming %s::%s, which has no implementation" % (r["trait"], r["method"]))
+        for f2 in impls:
+            for p_ in range(2, f2["argc"] + 1):
+                if carries(f2["locals"][p_], f2["crate"]):
+                    res.violate("renaming:%s::%s" % (r["trait"], r["method"]),
+                                "%s takes a tree-carrying parameter (%s): it is not a variable-for-variable renaming, recursion on its "
+                                "result is not bounded by the input" % (f2["key"], f2["locals"][p_]["ty"][:60]), f2["sp"]["file"], f2["sp"]["line"])
+        renamings.add((r["trait"], r["method"]))
+        res.inst("renaming:%s::%s" % (r["trait"], r["method"]), None, None, "ok", "%d implementations, no tree-carrying parameter besides the receiver" % len(impls))
+    WRAP = ("core::option::Option", "core::result::Result", "alloc::rc::Rc", "alloc::boxed::Box", "alloc::vec::Vec", "core::ops::control_flow::ControlFlow")
+    fobjs = {}
+
+    def fobj(key):
+        if key not in fobjs:
+            fn_ = Fn(fx.fns[key])
+            fobjs[key] = (fn_, Flow(fn_, extra_pass=_extra_pass))
+        return fobjs[key]
+    summ_memo = {}
+
+    def ret_summary(key, depth, stack):
+        """what the result of a helper is made of: leaves ('arg', i) of its own parameters, or 'built'; each with the names of the
+        non-pass-through calls it went through"""
+        if key in summ_memo:
+            return summ_memo[key]
+        out = resolve(key, 0, (), depth, stack | {key}, frozenset())
+        if not (stack & {key}):
+            summ_memo[key] = out
+        return out
+
+    def resolve(key, local, fields, depth, stack, seen):
+        """leaves of a value inside function `key`: (('arg', i, fields) | ('built', description), frozenset(via names))"""
+        if (local, fields) in seen:
+            return set()
+        seen = seen | {(local, fields)}
+        fn_, flow_ = fobj(key)
+        out = set()
+        for o in flow_.origins(local, fields):
+            if o[0] == "arg":
+                out.add((o, frozenset()))
+            elif o[0] in ("const", "undef"):
+                continue
+            elif o[0] == "agg":
+                rv = flow_.agg_at(o)
+                if rv.get("agg") in ("tuple", "array") or (rv.get("agg") == "adt" and (rv.get("adt") or "").startswith(WRAP)):
+                    for op in rv["ops"]:
+                        r_ = op_root(op)
+                        if r_ is not None:
+                            out |= resolve(key, r_, tuple(e["n"] for e in op["pl"]["p"] if isinstance(e, dict) and "f" in e), depth, stack, seen)
+                else:
+                    out.add((("built", _o(fn_, o)), frozenset()))
+            elif o[0] == "call":
+                t_ = fn_.blocks[o[1]]["term"]
+                k2 = t_.get("resolved_key") or (t_.get("callee_key") if not t_.get("callee_trait") else None)
+                name = t_.get("callee_name") or "?"
+                if (t_.get("callee_trait"), name) in renamings:
+                    name = None       # an audited renaming: the result has the size of the receiver
+                elif k2 in fx.fns and fx.fns[k2]["crate"] in ZONE and "{closure" not in k2 and depth < 3 and k2 not in stack and not _is_std_trait_impl(fx.fns[k2]):
+                    for leaf, via_ in ret_summary(k2, depth + 1, stack):
+                        if leaf[0] == "arg":
+                            if leaf[1] - 1 < len(t_["args"]):
+                                a_ = t_["args"][leaf[1] - 1]
+                                r_ = op_root(a_)
+                                if r_ is not None:
+                                    for l2, v2 in resolve(key, r_, tuple(e["n"] for e in a_["pl"]["p"] if isinstance(e, dict) and "f" in e), depth, stack, seen):
+                                        out.add((l2, via_ | v2))
+                        else:
+                            out.add((leaf, via_))
+                    continue
+                a0 = t_["args"][0] if t_["args"] else None
+                r_ = op_root(a0) if a0 else None
+                sub = set()
+                if r_ is not None:
+                    sub = resolve(key, r_, tuple(e["n"] for e in a0["pl"]["p"] if isinstance(e, dict) and "f" in e), depth, stack, seen)
+                add = frozenset([name]) if name else frozenset()
+                if sub:
+                    for l2, v2 in sub:
+                        out.add((l2, v2 | add))
+                else:
+                    out.add((("built", _o(fn_, o)), add))
+            else:
+                out.add((("built", "a computed value"), frozenset()))
+        return out
     comps = _sccs(cg, fx, ZONE)
     n_sites = 0
     n_skipped = [0]
@@ -169,9 +259,13 @@ def rule_descent(ctx):
                     continue
                 n_sites += 1
                 witness = None
+                audited_ok = None
                 detail = []
                 n_tree_args = 0
-                via = set()
+                callee = sorted(targets)[0]
+                ekey = "%s -> %s" % (k, callee if len(targets) == 1 else (t.get("callee_trait") or "?") + "::" + (t.get("callee_name") or "?"))
+                row = rows.get(ekey)
+                allowed = set(row.get("via", [])) if row else set()
                 for ai, a in enumerate(t["args"]):
                     r = op_root(a)
                     if r is None:
@@ -182,18 +276,20 @@ def rule_descent(ctx):
                     if not carries(loc, f["crate"]):
                         continue
                     n_tree_args += 1
-                    org = flow.origins(r, ())
-                    args_ok = [o for o in org if o[0] == "arg" and tree_param(o[1]) and (not (is_closure and o[1] == 1) or o[2])]
-                    bad = [o for o in org if not (o[0] == "arg" and tree_param(o[1])) and o[0] not in ("const", "undef")]
+                    leaves = resolve(k, r, (), 0, frozenset([k]), frozenset())
                     # flow-insensitive provenance: `self.x = self.x.f()` makes the old and the new value both origins of
                     # `self.x`; one origin that is a part of the input is accepted as the witness
-                    if args_ok:
-                        witness = (ai, args_ok[0])
+                    good = [(l_, v_) for l_, v_ in leaves if l_[0] == "arg" and tree_param(l_[1]) and (not (is_closure and l_[1] == 1) or l_[2])]
+                    plain = [g for g in good if not g[1]]
+                    if plain:
+                        witness = (ai, plain[0][0])
                         break
-                    via |= {fn.blocks[o[1]]["term"].get("callee_name") for o in bad if o[0] == "call"} | {"<built>" for o in bad if o[0] != "call"}
-                    detail.append("argument %d (%s) comes from %s" % (ai, loc["ty"][:40], ", ".join(sorted({_o(fn, o) for o in bad}))[:120] or "no parameter"))
-                callee = sorted(targets)[0]
-                ekey = "%s -> %s" % (k, callee if len(targets) == 1 else (t.get("callee_trait") or "?") + "::" + (t.get("callee_name") or "?"))
+                    viaok = [g for g in good if g[1] <= allowed]
+                    if viaok and audited_ok is None:
+                        audited_ok = (ai, viaok[0])
+                    what = sorted({("parameter %d through %s" % (l_[1], "/".join(sorted(v_)))) if l_[0] == "arg" and tree_param(l_[1]) else
+                                   (l_[1] if l_[0] == "built" else "parameter %d (not tree-carrying or `&mut`)" % l_[1]) for l_, v_ in leaves})
+                    detail.append("argument %d (%s) comes from %s" % (ai, loc["ty"][:40], ", ".join(what)[:160] or "no parameter"))
                 file, line = t["sp"]["file"], t["sp"]["line"]
                 if witness:
                     res.inst(ekey + "@%d" % n_sites, file, line, "ok", "argument %d is part of parameter %d" % (witness[0], witness[1][1]), nontrivial=True)
@@ -203,10 +299,10 @@ def rule_descent(ctx):
                     # over-approximation of generic dispatch); outside what this rule decides
                     n_skipped[0] += 1
                     continue
-                row = rows.get(ekey)
-                if row and via <= set(row.get("via", [])):
+                if row and audited_ok:
                     used_rows.add(ekey)
-                    res.inst(ekey + "@%d" % n_sites, file, line, "audited", "%s: %s" % (row.get("class", "AUDITED"), row["reason"]))
+                    res.inst(ekey + "@%d" % n_sites, file, line, "audited", "%s: %s (argument %d is a part of parameter %d passed through %s)" %
+                             (row.get("class", "AUDITED"), row["reason"], audited_ok[0], audited_ok[1][0][1], "/".join(sorted(audited_ok[1][1]))))
                     continue
                 res.inst(ekey + "@%d" % n_sites, file, line, "violation", "; ".join(detail)[:300])
                 res.violate(ekey, "recursive call %s is not a structural descent: no tree-carrying argument is a part of the caller's "
